@@ -9,7 +9,7 @@
             | (7 name e) walrus | (8 (name...) b) lambda | (9 elt name it (cond...)) comprehension
             | (10 (e...)) f-string | (11 tag e) eff(tag, e) | (12 (e...)) tuple | (13 e i) subscript
      stmt : (0 e) expression statement | (1 name e) assignment | (2 e) return
-     params: (is_method (tkey...) (posname...) rs cs (alias...) id code), posname / rs / cs = (0) none | (1 i) *)
+     params: (is_method (tkey...) (posname...) rs cs ((alias own?)...) id code), posname / rs / cs = (0) none | (1 i) *)
 (* OPCODE 40 run_rewrite *)
 (* OPCODE 41 run_eval *)
 From Coq Require Import ZArith List Bool Arith.
@@ -83,7 +83,7 @@ Definition rwp_of (s : sx) : rwp :=
                   a_complex := map tkey_of (sx_list (sx_nth 1 s));
                   a_posnames := map onat_of (sx_list (sx_nth 2 s)) |};
      p_rs := onat_of (sx_nth 3 s); p_cs := onat_of (sx_nth 4 s);
-     p_alias := map sx_nat (sx_list (sx_nth 5 s)); p_id := sx_nat (sx_nth 6 s); p_code := sx_nat (sx_nth 7 s) |}.
+     p_alias := map (fun a => (sx_nat (sx_nth 0 a), sx_bool (sx_nth 1 a))) (sx_list (sx_nth 5 s)); p_id := sx_nat (sx_nth 6 s); p_code := sx_nat (sx_nth 7 s) |}.
 
 (* ---- encoders *)
 Definition Zn (n : nat) : sx := A (Z.of_nat n).
